@@ -38,7 +38,7 @@ LEVEL_TEXT = (
 LEVEL_NOTE = "Trusted: simkit.readout.snapshot as 'everything observable' (monitor-side selection and caches are not part of the monitored system), httpx ASGI transport, the OpenAPI schema as the route table."
 MINIMIZE = None
 RULE = (
-    "one run = stack x history (6-14 invocations, queue length 3-9) x partial-purge flag x all GET routes (34 at this commit) x 1-3 parameter "
+    "one run = stack x history (6-14 invocations, queue length 3-9) x partial-purge / aged-by-25h / duplicate-queue-entry flags x all GET routes (34 at this commit) x 1-3 parameter "
     "choices each; non-trivial = the queue was longer than the requested page limit or the store was partially purged; distinct = hash of history + requests."
 )
 ASSUMPTIONS = [
